@@ -5,18 +5,26 @@ import subprocess
 
 import core
 import decode_checks
+import pair_checks
 
 
 def decode_check(prop, tier, seed, rep):
     decode_checks.run(prop, tier, seed, rep)
 
 
-CHECKS = {p: decode_check for p in ("C01", "C02", "C03", "C04", "C06", "C08", "C09", "C10")}
+CHECKS = {p: decode_check for p in ("C01", "C02", "C03", "C04", "C06", "C07", "C08", "C09", "C10")}
+
+
+CHECKS["C05"] = pair_checks.run
 
 
 def setup():
     core.build_hx("std")
     core.build_hx("alloc")
+    r = subprocess.run(["python3", os.path.join(core.VERIF, "drivers", "selfcheck.py")], stdout=subprocess.PIPE, text=True)
+    print(r.stdout.strip())
+    if r.returncode != 0:
+        raise core.ToolError("specification self-check failed")
     # parse every module and run the ASSUME self-tests once
     r = core.run_mc("SelfTest", workers=2, timeout=600, cache=False)
     if not r["ok"]:
